@@ -112,9 +112,10 @@ def corpus_cases(prop: str):
 
 def exhaustive_cases():
     """all initial shapes of one key x all histories of <= 2 commands over that key from a small command
-    alphabet x 3 modes x {commit, Exception, non-Exception BaseException, cancellation} (thorough tier)"""
+    alphabet (pattern commands included) x 3 modes x {commit, Exception, non-Exception BaseException, cancellation} (thorough tier)"""
     cmds = ["set 0 t:9 - a", "set 0 t:9 8 nx", "set 0 t:9 - xx", "incr 0 1 8", "delete 0", "expire 0 16",
-            "get 0", "getexpire 0", "exists 0", "getmany 0 2", "adv 2"]
+            "get 0", "getexpire 0", "exists 0", "getmany 0 2", "adv 2",
+            f"delmatch {txhist.enc('ka*')}", f"delmatch {txhist.enc('x*')}", f"scan {txhist.enc('k*')}"]
     inits = [["adv 3"], ["set 0 i:1 - a", "adv 3"], ["set 0 i:1 19 a", "adv 3"], ["set 0 i:1 2 a", "adv 3"]]
     hists = [[a] for a in cmds] + [[a, b] for a in cmds for b in cmds]
     for ini in inits:
@@ -216,8 +217,9 @@ def run_prop(chk: Check, prop: str) -> int:
                              "between or none] x [delete_match(p2) or none], p1, p2 in {k*, kb*, ka, kb1, x* (nothing)} - so delete_match meets keys that are "
                              "only pending, only in the store, both, pending-deleted or absent, before and after writes of matching and non-matching keys, "
                              "repeated with the identical and with a different pattern - followed by get_many of all keys, scan, get_match, exists and a "
-                             "conditional set from inside, the end of the block and a scan from outside: 29040 points; thorough tier: all of them x 3 modes "
-                             "(exhaustive over this space), every 7th also left by an exception; quick tier: 3000 points drawn from VERIF_SEED, one mode each, "
+                             "conditional set from inside, the end of the block and a scan from outside: 29040 points; thorough tier: all of them, each in fast mode (plain backend) "
+                             "and in one of the lock modes (lock backend; locked / serializable alternating) - exhaustive over this space -, every 7th also "
+                             "left by an exception; quick tier: 3000 points drawn from VERIF_SEED, one of the three modes each, "
                              "15% left by an exception / a cancellation",
         "caller_default_cases": ndef,
         "caller_default_rule": "reads with a caller-supplied default (`get(k, default=d)`, `get_many(..., default=d)`, d a value of the alphabet "
@@ -255,7 +257,7 @@ def run_prop(chk: Check, prop: str) -> int:
                         "VERIF_SEED, thorough tier: all three modes (exhaustive over this space)",
         "exhaustive": bool(nexh),
         "exhaustive_cases": nexh,
-        "exhaustive_rule": "thorough tier: 4 initial shapes of one key x all histories of <= 2 commands from an 11-command alphabet x 3 modes x {commit, Exception, BaseException, cancellation}",
+        "exhaustive_rule": "thorough tier: 4 initial shapes of one key x all histories of <= 2 commands from a 14-command alphabet (delete_match of the key, delete_match of nothing and scan included) x 3 modes x {commit, Exception, BaseException, cancellation}",
         "event_histogram": hist,
         "interesting_states_cases": interesting,
         "transaction_segments": nseg,
